@@ -269,7 +269,7 @@ FormatterToSourceTree::characters(
     }
     else if (m_currentElement == 0)
     {
-        if (isXMLWhitespace(chars) == false)
+        if (isXMLWhitespace(chars, 0, length) == false)
         {
             throw XalanDOMException(XalanDOMException::HIERARCHY_REQUEST_ERR);
         }
